@@ -17,6 +17,9 @@ enum { mo_relaxed = 0, mo_consume = 1, mo_acquire = 2, mo_release = 3, mo_acq_re
 #define AS_CONST(x) (x)
 #define RET __CPROVER_return_value
 #define OLD(x) __CPROVER_old(x)
+/* CBMC dereferences by value set, not by assumed equalities: this semantically empty statement (it re-assigns a pointer to the value it
+   already has) tells the analysis that lv aliases p */
+#define VF_ALIAS(lv, p) do { if ((lv) == (p)) (lv) = (p); } while (0)
 #define VF_CANARY(tag) __CPROVER_assert(0, "VF_CANARY reachable: " tag)
 
 /* kinds of atomic writes reported to the rely/guarantee hooks (rg_atomic.h) */
